@@ -13,6 +13,7 @@
        purgeRole           db/users.go DeleteRole(purge=true)
        deleteUser          auth.DeleteUser (email index document first, then the user document)
        session             auth/session.go CreateSession / DeleteSession / one-time session
+       resyncPrincipal     db/database.go regeneratePrincipalSequences -> auth.UpdateSequenceNumberForResync (one principal)
    The transcription is what the code DOES, including the places where that is not what the property wants; the
    property predicates below are then evaluated (a) by TLC over every program x every single fault (thorough: every
    pair) - the terminal states that break a predicate are exported as CANDIDATES - and (b) on the recorded REAL
@@ -63,8 +64,10 @@ L == Len(Ops)
 IsWrite(i) == W(Ops[i])
 WritesOf(cl) == {i \in 1..L : W(Ops[i]) /\ C(Ops[i]) = cl}
 Max(S) == CHOOSE x \in S : \A y \in S : y <= x
-(* the commit: the last write to the primary key class of a program whose fault-free run succeeds *)
-CommitIdx == IF p.clean = "ok" /\ WritesOf(p.primary) # {} THEN Max(WritesOf(p.primary)) ELSE 0
+(* the commit: the last (effective) write to the primary key class of a program whose fault-free run succeeds.  0 = the
+   program commits nothing: rejections, and a resync of a principal's sequence that gives up on a real CAS mismatch *)
+CommitWrites == {i \in WritesOf(p.primary) : R0(Ops[i]) = "ok"}
+CommitIdx == IF p.clean = "ok" /\ CommitWrites # {} THEN Max(CommitWrites) ELSE 0
 Phase(i) == IF CommitIdx = 0 \/ i < CommitIdx THEN "pre" ELSE IF i = CommitIdx THEN "commit" ELSE "post"
 Effective(i) == W(Ops[i]) /\ R0(Ops[i]) = "ok"
 ReadOf(i) == {j \in 1..(i - 1) : ~W(Ops[j]) /\ C(Ops[j]) = C(Ops[i]) /\ M(Ops[j]) \in {"WUX.read", "Update.read"}}
@@ -160,6 +163,8 @@ ImplFail(i, k) ==
                     /\ pc' = RetryTarget(i) /\ retried' = TRUE /\ UNCHANGED <<mode, pend, reply>>
                [] k = "Cas" /\ p.path = "UpdatePrincipal" ->                        \* release, then everything again with a new sequence
                     /\ pc' = 1 /\ retried' = FALSE /\ mode' = "release" /\ pend' = "retry" /\ reply' = "none"
+               [] k = "Cas" /\ p.path = "resyncPrincipal" ->                        \* "assuming sequence updated by another node": release, report success
+                    /\ pc' = L + 1 /\ retried' = retried /\ mode' = "release" /\ pend' = "ok" /\ reply' = "none"
                [] k \in {"TN", "TA"} ->                                            \* a timeout: the write may have happened, nothing is released
                     /\ pc' = i /\ retried' = retried /\ mode' = "end" /\ pend' = "none" /\ reply' = "timeout"
                [] OTHER -> /\ pc' = i /\ retried' = retried /\ Leave("failed")    \* Err (or a CAS mismatch surfacing from a path without retry)
@@ -212,7 +217,7 @@ AON(r, timedOutApplied, unchanged, seqBack) == (r \in {"rejected", "failed"} /\ 
 NSW(r, wasCommitted, readBack)              == (r = "ok") => (wasCommitted /\ readBack)
 
 AllOrNothing == AON(reply, ta, \A c \in Visible : dirty[c] = 0, given >= took \/ relFault)
-NoSwallow    == NSW(reply, committed, NeededSet \subseteq done)
+NoSwallow    == NSW(reply, committed \/ CommitIdx = 0, NeededSet \subseteq done)
 
 (* auxiliary / design invariants *)
 TypeOK == /\ pc \in 1..(L + 1) /\ n \in Nat /\ took \in Nat /\ given \in Nat /\ given <= took
